@@ -261,7 +261,19 @@ def _build_child(root: str, sources: list[tuple[str, str]], opts_kw: dict[str, A
             return stale, fresh
 
         B.find_stale_sccs = fss  # type: ignore[assignment]
-        options = make_options(root, **opts_kw)
+        cli_args = opts_kw.pop("cli_args", None)
+        if cli_args is not None:
+            # options built by the real command-line / config-file machinery (main.process_options),
+            # then pointed at the fixtures and the cache directory of this harness
+            from mypy.main import process_options
+
+            _, options = process_options(list(cli_args) + [p for p, _ in sources], fscache=None)
+            base = make_options(root, **opts_kw)
+            for k in ("use_builtins_fixtures", "incremental", "cache_dir", "sqlite_cache", "fixed_format_cache",
+                      "show_traceback", "python_version"):
+                setattr(options, k, getattr(base, k))
+        else:
+            options = make_options(root, **opts_kw)
         srcs = [BuildSource(p, m, None) for p, m in sources]
         msgs: list[str] = []
         try:
